@@ -189,8 +189,14 @@ class Runner:
         report = json.load(open(rep))
         if report.get('unmodelled'):
             raise BuildError('unmodelled externals (job refused): ' + ', '.join(report['unmodelled']))
-        return {'dir': d, 'cbmc_inputs': [cfile], 'cflags': ['-I' + RT, '-I' + os.path.join(VERIF, 'ir2c'), '-I' + os.path.join(VERIF, 'models')],
-                'report': report, 'c': cfile}
+        incs = ['-I' + RT, '-I' + os.path.join(VERIF, 'ir2c'), '-I' + os.path.join(VERIF, 'models')]
+        inputs = [cfile]
+        if not job.pdefs and job.maxalloc is None and os.path.getsize(cfile) > 2000000:
+            # large closures (Message.cpp: 150 k lines of C) take ~10 s to parse; jobs without -D parameters share one goto binary per build
+            gb = os.path.join(d, 'gen.gb')
+            rc, out, err, to, _ = sh(['goto-cc', '-D__CPROVER__'] + incs + [cfile, '-o', gb], timeout=600)
+            if rc == 0 and os.path.exists(gb): inputs = [gb]
+        return {'dir': d, 'cbmc_inputs': inputs, 'cflags': incs, 'report': report, 'c': cfile}
 
     # ------------------------------------------------------------------ cbmc
     def cbmc_cmd(self, job, b, extra=()):
@@ -460,15 +466,15 @@ class Runner:
     def gen_native_build(self, job):
         """compile the ir2c-generated C natively (for the translator differential)"""
         b = self.get_build(job)
-        key = job.build_key() + '_gen'
+        key = job.build_key() + '_gen' + hashlib.sha1((job.gen_c or '').encode()).hexdigest()[:10]
         with self.build_lock:
             if key not in self.build_locks: self.build_locks[key] = threading.Lock()
             lk = self.build_locks[key]
         with lk:
             if key in self.builds: return self.builds[key]
-            exe = os.path.join(b['dir'], 'gen_native')
+            exe = os.path.join(b['dir'], 'gen_native_' + hashlib.sha1((job.gen_c or '').encode()).hexdigest()[:10])
             cmd = ['gcc', '-O1', '-w', '-fno-strict-aliasing', '-fwrapv', '-I' + RT, '-I' + os.path.join(VERIF, 'ir2c'), '-I' + os.path.join(VERIF, 'models'), '-DHAVE_CTORS', '-DHARNESS=' + job.entry] + \
-                  defs_to_flags(job.pdefs) + [b['c'], os.path.join(RT, 'native_rt.c'), '-o', exe, '-lm']
+                  defs_to_flags(job.pdefs) + [b['c']] + self.gen_c_file(job, b) + [os.path.join(RT, 'native_rt.c'), '-o', exe, '-lm', '-lstdc++']
             rc, out, err, to, _ = sh(cmd, timeout=600)
             if rc != 0:
                 self.log('GEN-NATIVE BUILD FAILED for %s:\n%s' % (job.name, err[-2500:]))
